@@ -46,6 +46,7 @@ type source struct {
 	script []int // bytes and -1 (scripted timeout)
 	pos    int
 	late   func() bool // V mode: decides whether a finite read times out (nil: scripted only)
+	delays []int       // per script position: 1 = the byte arrives late (just under the granted timeout)
 	recs   []rec
 	eof    bool
 	nbytes int // bytes served during the current readEvent call
@@ -55,6 +56,8 @@ func (s *source) ReadByteWithTimeout(t time.Duration) (byte, error) {
 	req := "finite"
 	if t < 0 {
 		req = "block"
+	} else if t == 0 {
+		req = "zero" // a poll: neither "wait for ever" nor a positive timeout
 	}
 	if s.pos >= len(s.script) {
 		if req == "block" {
@@ -73,6 +76,18 @@ func (s *source) ReadByteWithTimeout(t time.Duration) (byte, error) {
 		s.recs = append(s.recs, rec{A: -1, Req: req, R: -1})
 		return 0, term.VerifErrTimeout
 	}
+	if s.delays != nil && s.pos < len(s.delays) && s.delays[s.pos] == 1 {
+		// a "late" byte: it arrives just before the timeout the decoder granted expires (real
+		// waiting, because the decoder may consult the clock); a longer wait on a slow machine only
+		// makes more time pass -- the verdict is on the REQUESTED timeouts, never on measured time
+		d := t * 95 / 100
+		if t < 0 || t > time.Second {
+			d = term.VerifKeySeqTimeout() * 95 / 100
+		} else if t < term.VerifKeySeqTimeout()/2 {
+			d = t
+		}
+		time.Sleep(d)
+	}
 	b := s.script[s.pos]
 	s.pos++
 	s.nbytes++
@@ -83,7 +98,11 @@ func (s *source) ReadByteWithTimeout(t time.Duration) (byte, error) {
 // decode runs the real decoder over the script until the source is exhausted at an event
 // boundary. It returns the per-read records; panic != "" if the decoder panicked.
 func decode(script []int, late func() bool) (recs []rec, panicMsg string, evals int) {
-	src := &source{script: script, late: late}
+	return decodeTimed(script, nil, late)
+}
+
+func decodeTimed(script, delays []int, late func() bool) (recs []rec, panicMsg string, evals int) {
+	src := &source{script: script, late: late, delays: delays}
 	defer func() {
 		if r := recover(); r != nil {
 			recs, panicMsg = src.recs, fmt.Sprint(r)
@@ -134,6 +153,7 @@ type outT struct {
 }
 type step struct {
 	A   int    `json:"a"`
+	Dl  int    `json:"dl"` // 1 = this byte arrives late (timing scripts)
 	Req string `json:"req"`
 	Out outT   `json:"out"`
 }
@@ -232,12 +252,26 @@ func class(b int) string {
 	return "X"
 }
 
+func delaysOf(beh []step) []int {
+	var d []int
+	for i, st := range beh {
+		if st.Dl == 1 {
+			if d == nil {
+				d = make([]int, len(beh))
+			}
+			d[i] = 1
+		}
+	}
+	return d
+}
+
 func replayBehaviour(c *lib.Ctx, beh []step) {
 	script := scriptOf(beh)
-	recs, pm, ev := decode(script, nil)
+	delays := delaysOf(beh)
+	recs, pm, ev := decodeTimed(script, delays, nil)
 	c.AddEvals(ev)
 	if pm != "" {
-		c.Reject("decoder:"+pm+":"+phaseTag(script, len(recs)), fmt.Sprintf("script %v: %s", script, pm), map[string]any{"script": script})
+		c.Reject("decoder:"+pm+":"+phaseTag(script, len(recs)), fmt.Sprintf("script %v: %s", script, pm), map[string]any{"script": script, "delays": delays})
 		return
 	}
 	if why, at := compare(beh, recs); why != "" {
@@ -249,7 +283,7 @@ func replayBehaviour(c *lib.Ctx, beh []step) {
 		if at < len(beh) {
 			want = beh[at]
 		}
-		c.Reject("g:"+why+":"+phaseTag(script, at), fmt.Sprintf("script %v, read %d: real decoder %+v, specification prescribes %+v", script, at+1, got, want), map[string]any{"script": script})
+		c.Reject("g:"+why+":"+phaseTag(script, at), fmt.Sprintf("script %v (late bytes %v), read %d: real decoder %+v, specification prescribes %+v", script, delays, at+1, got, want), map[string]any{"script": script, "delays": delays})
 	}
 }
 
@@ -386,7 +420,12 @@ func run(c *lib.Ctx) error {
 		}
 	}
 	c.Set("g_text_and_script_behaviours", nt)
-	c.AddTraces(nb + nt)
+	// ---- G: timing scripts (slow, long sequences; the byte source really waits)
+	ntm, err := timing(c, dir)
+	if err != nil {
+		return err
+	}
+	c.AddTraces(nb + nt + ntm)
 	c.Set("exhaustive", true)
 
 	// ---- V
@@ -406,12 +445,13 @@ func replay(c *lib.Ctx, dir string) error {
 		Case struct {
 			Script []int `json:"script"`
 			Late   []int `json:"late"`
+			Delays []int `json:"delays"`
 		} `json:"case"`
 	}
 	if err := json.Unmarshal(b, &f); err != nil {
 		return lib.Infra("%v", err)
 	}
-	recs, pm, ev := decode(f.Case.Script, lateFrom(f.Case.Late))
+	recs, pm, ev := decodeTimed(f.Case.Script, f.Case.Delays, lateFrom(f.Case.Late))
 	c.AddEvals(ev)
 	if pm != "" {
 		c.Reject("decoder:"+pm+":"+phaseTag(f.Case.Script, len(recs)), pm, f.Case)
